@@ -6,7 +6,7 @@ from . import _w
 PROP = "C04"
 WEIGHTS = {"swap": 18, "swap_window": 2, "swap_malformed": 1, "provide": 16, "provide_first": 4, "withdraw": 36,
            "route": 4, "donate": 10, "lp_burn": 6, "lp_transfer": 4, "unauth": 0, "provide_malformed": 0,
-           "route_bad": 0, "intent": 0, "add_decimals": 0, "transfer": 0, "withdraw_via_token": 5}
+           "route_bad": 0, "intent": 0, "add_decimals": 0, "transfer": 0, "withdraw_via_token": 5, "freeze_token": 3}
 
 
 def factory(w, a):
@@ -61,9 +61,11 @@ def floors(acc, tier):
     msgs = _w.canary_floor(acc, CORR)
     _w.need(acc, msgs, "withdraw_ok", 3000)
     _w.need(acc, msgs, "withdraw_via_other_token_err", 150)
+    _w.need(acc, msgs, "token_freezes_ok", 20)
+    _w.need(acc, msgs, "withdrawals_while_a_pool_token_is_frozen_err", 60)
     if not any(k.startswith("via_token|") and k.endswith("|parked") for k in acc.classes):
         msgs.append("no withdraw hook through another token while the pair held parked LP")
-    rel = set(k.split("|")[5] for k in acc.classes if not k.startswith(("edge|", "via_token|")))
+    rel = set(k.split("|")[5] for k in acc.classes if not k.startswith(("edge|", "via_token|", "freeze_token|")))
     # (value per share never decreases, so S <= sqrt(r0*r1): S above both reserves is unreachable)
     for want in ("Svs_r:lt", "Svs_r:mid", "S<<rmax", "S>>rmin"):
         if not any(want in r for r in rel):
